@@ -60,7 +60,7 @@ Proof. intros compile layout_of p inp img n _. exact (monitor_sound (layout_of i
 Print Assumptions C08_validated_run_partial.
 
 (* (5) PARTIAL: the frame discipline of the generated code, proved for the statement fragment of
-   Properties_C01.C01_stmt_fragment_partial (skip, return, if, while, sequences, assignment, put -- no calls), at
+   Properties_C01.C01_stmt_fragment_partial (skip, return, if, while, sequences, assignment, put, get -- no calls), at
    statement granularity: when the code xcmp's model generates for a statement has run to its end (XSem executes
    the statement normally from a related state), the stack-pointer word mem[1] holds what it held, no protected
    word (code, constant pool) has changed, and every other change lies in the procedure's temporaries, its
@@ -76,10 +76,11 @@ Theorem C08_frame_discipline_partial :
     stmt_ok pinfo Fr Dq venv aenv garr abase alen_of pool size nslots off0 og exitl ge P m0 lab sp f ->
     forall s n code n' st st', cs pinfo venv pool size nslots aenv off0 og exitl s n = Some (code, n') ->
     exec f ge s st = Ret Normal st' ->
-    forall m pos nxt a b inp, Rel pinfo Dq venv aenv garr abase alen_of ge P m0 sp st m -> code_at (C P m0) lab pos code nxt ->
+    forall m pos nxt a b inp, Rel pinfo Dq venv aenv garr abase alen_of ge P m0 sp st m -> console inp = input st ->
+    code_at (C P m0) lab pos code nxt ->
     0 <= pos -> nxt < W -> 0 <= lab exitl < W ->
     exists evs a' b' m',
-      runs inp (mk pos a b 0 m) evs inp (mk nxt a' b' 0 m') /\
+      runs inp (mk pos a b 0 m) evs (adv inp st') (mk nxt a' b' 0 m') /\
       rd m' 1 = rd m 1 /\
       (forall x, 0 <= x -> P x -> rd m' x = rd m x) /\
       (forall x, 0 <= x -> ~ scratch Fr size nslots off0 og sp x -> ~ var_word venv garr abase alen_of sp x -> rd m' x = rd m x).
@@ -132,9 +133,10 @@ Theorem C08_call_discipline_partial :
     forall f pr fn ln L sp, frame_ok gaddr aaddr stack_lo stack_hi maxframe pr fn ln L sp ->
     forall p pi vs st v st' m link b inp, pinfo p = Some pi ->
       Rel pinfo (Dq_of ge stack_lo maxframe sp) (frame_venv gaddr pr (pl_size L)) (frame_aenv aaddr pr (pl_size L)) (garr_of aaddr) abase alen_of ge P m0 sp st m ->
+      console inp = input st ->
       args_stored (garr_of aaddr) abase sp vs (koff pi) m -> Z.of_nat (List.length vs) + koff pi <= pl_og L -> 0 <= link < W ->
       invoke (exec f ge) ge (pf_isfunc pi) p vs st = Ret v st' ->
-      exists evs a' b' m', runs inp (mk (lab (pf_entry pi)) link b 0 m) evs inp (mk link a' b' 0 m') /\
+      exists evs a' b' m', runs inp (mk (lab (pf_entry pi)) link b 0 m) evs (adv inp st') (mk link a' b' 0 m') /\
         rd m' 1 = rd m 1 /\ (forall x, 0 <= x -> P x -> rd m' x = rd m x) /\
         (forall x, 0 <= x ->
            ~ scratch (Fr_of stack_lo sp) (pl_size L) (pl_nslots L) (first_temp pr) (pl_og L) sp x ->
@@ -145,14 +147,16 @@ Print Assumptions C08_call_discipline_partial.
 (* Non-vacuity of (6): its hypotheses are those of Properties_C01.C01_calls_partial (prog_hyps), and they hold for
    the demo program of coq/XCodegenDemo.v (a recursive procedure cd with a value formal, an array formal and a local and a recursive
    function fd, called from main), whose image is laid out as xcmp does from the model's lowered code.  Applied to
-   main's body `g := 0; cd(3, a); g := fd(g); g := g + a[2]` run from main's frame: after four nested activations of cd
-   (each assigning an element of the global array a through its array formal) and seven of fd the stack-pointer word holds 199989 as before. *)
+   main's body `g := 0; cd(3, a); g := fd(g); g := g + a[2]; ch := get(0); put(ch, 0)` run from main's frame: after four
+   nested activations of cd (each assigning an element of the global array a through its array formal), seven of fd
+   and the two system calls the stack-pointer word holds 199988 as before. *)
 Example C08_call_discipline_nonvacuous_hyps :
   prog_hyps demo_ge demo_gaddr demo_aaddr demo_abase demo_alen demo_pool demo_P demo_m0 demo_lab demo_pinfo demo_stack_lo demo_stack_hi demo_maxframe.
 Proof. exact demo_hyps. Qed.
-Example C08_call_discipline_nonvacuous_run : forall a b inp, exists a' b' m',
-  runs inp (mk 136 a b 0 (wr demo_m0 1 199989)) [Write 51 0; Write 50 0; Write 49 0; Write 48 0] inp (mk 165 a' b' 0 m') /\
-  rd m' 1 = 199989 /\ rd m' 2 = 57 /\ rd m' 199998 = 50.
+Example C08_call_discipline_nonvacuous_run : forall a b inp, console inp = [66; 67] -> exists evs a' b' m',
+  runs inp (mk 140 a b 0 (wr demo_m0 1 199988)) evs {| console := [67]; files := files inp |} (mk 187 a' b' 0 m') /\
+  writes evs = [(0, 51); (0, 50); (0, 49); (0, 48); (0, 66)] /\
+  rd m' 1 = 199988 /\ rd m' 2 = 57 /\ rd m' 4 = 66 /\ rd m' 199998 = 50.
 Proof. exact demo_main_body_runs. Qed.
 
 (* Non-vacuity.  The image the repaired xcmp emits for `proc main() is skip` (5 words; data word 1 = stack
